@@ -92,7 +92,8 @@ type script struct {
 	shutdown   bool      // a thread calls PubSub.Shutdown at any point
 	trace      bool      // notifications.New(traceBlock)
 	degenerate bool      // empty key list / undefined cid (sequential)
-	delta      int
+	delta      int // added to the tier's deviation bound in the quick tier
+	deltaT     int // ... in the thorough tier
 	maxSteps   int
 }
 
@@ -591,9 +592,10 @@ func scripts() []*script {
 		{name: "sync_a_pubA_cancel", reqs: syn(a), pubs: P{{{a}}}, cancel: 0},
 		{name: "sync_a_pubA_shutdown", reqs: syn(a), pubs: P{{{a}}}, cancel: noCancel, shutdown: true},
 		// two overlapping requests sharing a key
-		{name: "two_a_ab_pubAB", reqs: []reqSpec{{keys: []int{a}}, {keys: []int{a, b}}}, pubs: P{{{a, b}}}, cancel: noCancel},
-		{name: "two_ab_a_pubA_pubB", reqs: []reqSpec{{keys: []int{a, b}}, {keys: []int{a}}}, pubs: P{{{a}}, {{b}}}, cancel: noCancel, delta: -1},
-		{name: "two_a_a_pubA_cancel0", reqs: []reqSpec{{keys: []int{a}}, {keys: []int{a}}}, pubs: P{{{a}}}, cancel: 0},
+		// (seven and more threads: thorough keeps them at the quick bound 2; the largest gets 1 / 2)
+		{name: "two_a_ab_pubAB", reqs: []reqSpec{{keys: []int{a}}, {keys: []int{a, b}}}, pubs: P{{{a, b}}}, cancel: noCancel, deltaT: -1},
+		{name: "two_a_a_pubA_cancel0", reqs: []reqSpec{{keys: []int{a}}, {keys: []int{a}}}, pubs: P{{{a}}}, cancel: 0, deltaT: -1},
+		{name: "two_ab_a_pubA_pubB", reqs: []reqSpec{{keys: []int{a, b}}, {keys: []int{a}}}, pubs: P{{{a}}, {{b}}}, cancel: noCancel, delta: -1, deltaT: -1},
 	}
 }
 
@@ -605,8 +607,12 @@ func scenarios(r *eng.Run) []*vexp.Scenario {
 		if ms == 0 {
 			ms = 2000
 		}
+		delta := s.delta
+		if r != nil && r.Thorough() {
+			delta = s.deltaT
+		}
 		sc := &vexp.Scenario{
-			Name: s.name, BoundDelta: s.delta,
+			Name: s.name, BoundDelta: delta,
 			Cfg: vsched.Config{MaxSteps: ms, MaxIdleFires: 4, SelectCost: 1, SwitchCost: 1, Fair: true},
 			New: func() vexp.Exec { return &exec{sc: s} },
 		}
@@ -618,7 +624,7 @@ func scenarios(r *eng.Run) []*vexp.Scenario {
 func main() {
 	eng.WorkerMain = func() { vexp.Register(scenarios(nil)...); eng.WorkerMain() }
 	eng.Main("C37", "model_checking", func(r *eng.Run) {
-		r.Rule("every schedule (thread interleaving, select-case choice) of each scenario with at most B deviations from the default run-to-completion schedule; a case is non-trivial when it has >= 1 deviation; each execution is a distinct choice sequence run on the rewritten real notifications.PubSub + cskr/pubsub + getter")
+		r.Rule("every schedule (thread interleaving, select-case choice) of each scenario with at most B deviations from the base schedule (continue the running thread, else the lowest-numbered enabled thread; first ready select case; fair defaults in busy-wait loops); B = 2 quick / 3 thorough, two-request scenarios 2 (the largest 1 quick / 2 thorough); a case is non-trivial when it has >= 1 deviation; each execution is a distinct choice sequence run on the rewritten real notifications.PubSub + cskr/pubsub + getter")
 		r.Assume("vsched models channels, select and sync faithfully; context cancellation is native (Done channels are polled)")
 		r.Assume("the want manager behind the want / cancel-wants callbacks is a recorder: receipt of a block on the publish path is taken to clean the want-list for that key, as client.receiveBlocksFrom -> SessionManager.ReceiveFrom does")
 		vexp.Explore(r, scenarios(r), vexp.Options{Bound: eng.Pick(r, 2, 3)})
